@@ -68,6 +68,10 @@ def check_state(rec, B, tg, tp, r, obs_g, obs_p, rng, bits=True, polys=2, dense_
     tol = max(B.tol, 1e-9)
     # --- list of Hermitian observables
     L = B.PauliList(obs_g.copy(), obs_p.copy())
+    if B.name == "np" and rng.integers(3) == 0:
+        # queries only read: the state and the observables may live in read-only arrays
+        B.freeze(S), B.freeze(L)
+        sc = dict(sc, arrays="read-only")
     ok, xs = rec.attempt("exp.list", sc, lambda: S.expect(L))
     want = np.array([np.trace(R @ O.dense(g, p)).real for g, p in zip(obs_g, obs_p)])
     if ok:
